@@ -27,19 +27,19 @@ from .layout import DecodeError, c_indices
 
 xo = seams.xo
 
-_W = dict(construct=22, set_leaf=8, set_compound=4, bind=6, copy=4, drop=3, raw=5, grow=10, misuse=0, restart=3, json=0, c_read=0, c_set=0, c_call=0)
+_W = dict(construct=22, set_leaf=8, set_compound=4, bind=6, copy=4, drop=3, raw=5, grow=10, misuse=0, restart=3, json=0, c_read=0, c_set=0, c_call=0, c_rebuild=0)
 objsim.PROFILES.update(
     {
         "c_readers": dict(w=dict(_W, c_read=38)),
         "c_readers_refs": dict(w=dict(_W, c_read=38, bind=14), force=dict(refs=True, urefs=True)),
         "c_writers": dict(w=dict(_W, c_set=34, c_read=6)),
-        "c_calls": dict(w=dict(_W, c_call=40, c_read=2)),
+        "c_calls": dict(w=dict(_W, c_call=40, c_read=2, c_rebuild=2)),
         # C20: restart, then compiled accessors on both sides (restored objects through the rebuilt
         # kernel table of the unpickled context)
         "c_restart": dict(w=dict(_W, restart=14, c_read=16, c_set=14, grow=4)),
     }
 )
-objsim.OP_PROP.update({"c_read": "C02", "c_set": "C07", "c_call": "C17"})
+objsim.OP_PROP.update({"c_read": "C02", "c_set": "C07", "c_call": "C17", "c_rebuild": "C17"})
 objsim.OWN_OPS.update({"C02": ("c_read",), "C07": ("c_set",), "C17": ("c_call",)})
 
 
@@ -248,6 +248,16 @@ class CGenSource(GenSource):
             return None
         o, at, p, t, n = got
         return {"op": "c_set", "obj": o.k, "at": at, "path": p, "value": M.gen_scalar(self.rng, w.schema[t]["t"]), "via": self._via(o)}
+
+    def c_rebuild(self, w):
+        from . import cprobes
+
+        if getattr(self, "n_rebuilds", 0) >= 2:
+            return None  # (each one compiles)
+        op = cprobes.gen_rebuild(self, w)
+        if op is not None:
+            self.n_rebuilds = getattr(self, "n_rebuilds", 0) + 1
+        return op
 
     def c_call(self, w):
         from . import cprobes
@@ -536,6 +546,11 @@ class CStep(Step):
         self.res.probe("c_set_calls")
         if ext[1] == max((off + size) for (off, size) in o.buf._sim_allocs) if o.buf._sim_allocs else False:
             self.res.probe("c_set_last_byte_of_last_allocation")
+
+    def op_c_rebuild(self):
+        from . import cprobes
+
+        cprobes.run_rebuild(self)
 
     def op_c_call(self):
         from . import cprobes
